@@ -323,6 +323,20 @@ func vcOne(tmp string, id string, sc vcScenario, k int) (string, int, []string) 
 	os.MkdirAll(e2.stageDir, 0o755)
 	os.MkdirAll(e2.finalDir, 0o755)
 	e2.logger = log.NewFileIO(e2.logDir, nil, nil, false)
+	if k%3 == 0 {
+		// in every third crash image the unfinished transfers had been stalled for a while when the
+		// process died: their partials and companions date from an earlier day, at a LATER time of day
+		// than the restart (the range of log days read back at start-up begins there)
+		nowT := time.Now().UTC()
+		midnight := time.Date(nowT.Year(), nowT.Month(), nowT.Day(), 0, 0, 0, 0, time.UTC).Add(24 * time.Hour)
+		old := nowT.Add(-48 * time.Hour).Add(midnight.Sub(nowT) / 2)
+		filepath.Walk(e2.stageDir, func(p string, info os.FileInfo, err error) error {
+			if err == nil && !info.IsDir() && (filepath.Ext(p) == compExt || filepath.Ext(p) == partExt) {
+				os.Chtimes(p, old, old)
+			}
+			return nil
+		})
+	}
 	image := vcImage(e2, sc)
 	var w strings.Builder
 	now := time.Now().Unix()
